@@ -172,6 +172,8 @@ def run(chk, facts, tier, only=None):
         chk.include(c08, "C08.R2", "C04.R7", facts)     # components are decoded at (expected, wire) of that component, never (expected, expected)
         import c10
         chk.include(c10, "C10.R6", "C04.R8", facts)     # variant payloads: the accessor follows the expected payload type, so null at opt T decodes
+        import c02
+        chk.include(c02, "C02.R4", "C04.R9", facts)     # header validation incl. replace_empty: only vacuous records become `empty`; check_subtype accepts only through the check
     if not only or only == "C04.R1":
         chk.run_rule("C04.R1", "checker rule table and decoder acceptance table agree in both directions",
                      lambda: rule_tables(chk, facts))
